@@ -1,4 +1,5 @@
 import SrProofs.Stiffness
+import SrProofs.Substep
 
 /-!
 # C11 — the reported axial stiffness is the derivative of the reported axial force
@@ -244,6 +245,79 @@ theorem stiffness_pos_gps (Kff : Matrix k k ℝ) (f : k → ℝ) (d h : ℝ) (hh
 
 end pos
 
+/-! ### (d) the imposed displacement through the sub-increments of a step (finding F30)
+
+`SrModel.Substep`: the loop hands sub-increment `k` the displacement `dtop·f_k` and the state left
+by sub-increment `k−1`, and returns the last sub-increment's tangent.  For a Maxwell bar (backward
+Euler, `c_k = Δt_k/η`) the returned force is affine in the imposed strain, so its derivative is a
+difference quotient, and:
+
+* one increment, or an elastic material under any subdivision: reported = derivative;
+* a creeping material and a split step: the derivative is `reported · (1 − ∂v/∂ε)` with
+  `0 < ∂v/∂ε < 1` — positive, but strictly smaller than the reported number.
+
+This is the statement of C11 for the *loop*; it fails for split inelastic steps, and the failure
+is the open finding F30.  The harness reproduces the failure on the real solver (adaptive and
+forced subdivision) and checks the prediction "elastic + forced subdivision is exact" there; the
+*sign* of the discrepancy is a fact about the constant-modulus Maxwell bar only (real steps also
+change temperature and pressure with `sf`, and under-reporting by 0.4 % has been observed). -/
+section substep
+open SrModel.Substep
+variable {F : Type} [Field F] [LinearOrder F] [IsStrictOrderedRing F]
+
+/-- **substep_derivative.** For any accepted sub-increments `incs` followed by the one that ends the
+step (`f = 1`): every difference quotient of the returned stress is
+`tan · (1 − sens incs)`, where `tan` is the reported tangent. -/
+theorem substep_derivative (E : F) (incs : List (Inc F)) (last : Inc F) (hl : last.f = 1)
+    (s0 : St F) (e1 e2 : F) :
+    (run E e1 s0 (incs ++ [last])).sig - (run E e2 s0 (incs ++ [last])).sig
+      = (run E e1 s0 (incs ++ [last])).tan * (1 - sens E incs) * (e1 - e2) := by
+  have hv := run_v_diff E e1 e2 incs s0 s0 0 (by ring)
+  rw [← sens_eq_sensFrom] at hv
+  simp only [run_append_last, incr, hl]
+  linear_combination (-(E * beta E last)) * hv
+
+/-- **substep_single_exact.** A step integrated in one increment reports the derivative. -/
+theorem substep_single_exact (E : F) (last : Inc F) (hl : last.f = 1) (s0 : St F) (e1 e2 : F) :
+    (run E e1 s0 [last]).sig - (run E e2 s0 [last]).sig = (run E e1 s0 [last]).tan * (e1 - e2) := by
+  have h := substep_derivative E [] last hl s0 e1 e2
+  simpa [sens] using h
+
+/-- **substep_elastic_exact.** An elastic material (`c = 0` in every earlier sub-increment) reports
+the derivative however the step is split. -/
+theorem substep_elastic_exact (E : F) (incs : List (Inc F)) (hc : ∀ i ∈ incs, i.c = 0) (last : Inc F)
+    (hl : last.f = 1) (s0 : St F) (e1 e2 : F) :
+    (run E e1 s0 (incs ++ [last])).sig - (run E e2 s0 (incs ++ [last])).sig
+      = (run E e1 s0 (incs ++ [last])).tan * (e1 - e2) := by
+  have h := substep_derivative E incs last hl s0 e1 e2
+  rw [sens_eq_sensFrom, sensFrom_elastic E incs hc] at h
+  simpa using h
+
+/-- **substep_inelastic_overreports** (F30).  If the step was split (`i :: is` accepted before the
+last sub-increment), the first part creeps (`c > 0`) and the fractions lie in `(0, b]`, `b < 1`,
+then the derivative of the returned stress is positive and **strictly smaller** than the reported
+tangent. -/
+theorem substep_inelastic_overreports {E : F} (hE : 0 < E) (i : Inc F) (is : List (Inc F)) (b : F) (hb : b < 1)
+    (hci : 0 < i.c) (hfi : 0 < i.f) (hc : ∀ j ∈ is, 0 ≤ j.c)
+    (hf : ∀ j ∈ i :: is, 0 ≤ j.f ∧ j.f ≤ b) (last : Inc F) (hcl : 0 ≤ last.c) (s0 : St F) (e : F) :
+    let tan := (run E e s0 ((i :: is) ++ [last])).tan
+    0 < tan * (1 - sens E (i :: is)) ∧ tan * (1 - sens E (i :: is)) < tan := by
+  have htan : (run E e s0 ((i :: is) ++ [last])).tan = E * beta E last := by
+    rw [run_append_last]; rfl
+  have hpos : 0 < E * beta E last := mul_pos hE (beta_pos hE hcl)
+  have hs := sens_pos hE i is hci hfi hc (fun j hj => (hf j (List.mem_cons_of_mem _ hj)).1)
+  have hle := sens_le hE (i :: is) b (le_trans (hf i List.mem_cons_self).1 (hf i List.mem_cons_self).2)
+    (fun j hj => by
+      rcases List.mem_cons.1 hj with h | h
+      · rw [h]; exact hci.le
+      · exact hc j h) hf
+  simp only [htan]
+  constructor
+  · apply mul_pos hpos; linarith [hle.2]
+  · nlinarith
+
+end substep
+
 /-! ### non-vacuity -/
 
 /-- `schur_derivative`: a 1×1 system `2·u + e·3 = 4`, `F = 5·u + 7·e`: slope `7 − 5·3/2 = −1/2` -/
@@ -277,5 +351,14 @@ example (lam mu : ℚ) (ε : Ten ℚ) :
         + mu * ((if i = k then 1 else 0) * (if j = l then 1 else 0) + (if i = l then 1 else 0) * (if j = k then 1 else 0))
     integrand1 C ε = integrand1Pinned C ε := by
   simp [integrand1, integrand1Pinned, integrand1With, reduce2, sum3]
+
+/-- `substep_inelastic_overreports`: `E = 1`, a step split in two halves with `c = 1` each: the
+reported tangent is `1/2`, the derivative of the returned stress `3/8` -/
+example : (SrModel.Substep.run (1 : ℚ) 1 ⟨0, 0, 0⟩ [⟨1/2, 1⟩, ⟨1, 1⟩]).tan = 1/2
+    ∧ SrModel.Substep.sens (1 : ℚ) [⟨1/2, 1⟩] = 1/4
+    ∧ (SrModel.Substep.run (1 : ℚ) 1 ⟨0, 0, 0⟩ [⟨1/2, 1⟩, ⟨1, 1⟩]).sig
+        - (SrModel.Substep.run (1 : ℚ) 0 ⟨0, 0, 0⟩ [⟨1/2, 1⟩, ⟨1, 1⟩]).sig = 3/8 := by
+  refine ⟨?_, ?_, ?_⟩ <;> norm_num [SrModel.Substep.run, SrModel.Substep.incr, SrModel.Substep.beta,
+    SrModel.Substep.sens, SrModel.Substep.sensStep]
 
 end SrProps.C11
